@@ -15,7 +15,12 @@ use crate::response::{Response, StatusCode};
 use crate::server::MAX_PAYLOAD_SIZE;
 use vmm_sys_util::sock_ctrl_msg::ScmSocket;
 
+#[cfg(not(micro_http_verif = "small"))]
 const BUFFER_SIZE: usize = 1024;
+// Verification knob (off by default): a 64-byte receive window makes window-edge
+// alignments ~16x denser for the simulation checks. Never set in a normal build.
+#[cfg(micro_http_verif = "small")]
+const BUFFER_SIZE: usize = 64;
 const SCM_MAX_FD: usize = 253;
 
 /// Describes the state machine of an HTTP connection.
